@@ -175,6 +175,7 @@ func checkC08(c *Ctx) {
 	borrowRule(c, "C07", "C07.bind", "C08.bind")
 	// the 得到 name is attached to the call that produces the value the evaluator binds (one owner per production)
 	borrowRule(c, "C03", "C03.yield", "C08.yield")
+	R.Explain += " (C08.yield = C03.yield) the 得到 name is attached to the call whose value the evaluator binds."
 
 	// ---- C08.args + C08.result
 	if f := u.ssaFunc("pkg/exec", "evalFunctionCall"); f != nil {
